@@ -93,8 +93,21 @@ static void info_line(void)
     printf("\n");
 }
 
+static char VNAME[80] = "tbl", VCLASS[80] = "";
+/* rename the vdata / change its class (implementation oracle only, no model line): lengths 1..70, the library keeps VSNAMELENMAX (64)
+   characters; a SHORTER name must shrink the header element too (cc2667e) */
+static void do_rename(void)
+{
+    char nm[80]; int n = (int)hk_range(1, 70);
+    for (int i = 0; i < n; i++) nm[i] = (char)hk_range('a', 'z'); nm[n] = 0;
+    if (hk_chance(60)) { if (VSsetname(vs, nm) == FAIL) { hk_fail("vs-rc", "VSsetname(len %d)", n); return; } nm[64] = 0; strcpy(VNAME, nm); hk_stat("renames", 1); }
+    else { if (VSsetclass(vs, nm) == FAIL) { hk_fail("vs-rc", "VSsetclass(len %d)", n); return; } nm[64] = 0; strcpy(VCLASS, nm); hk_stat("reclasses", 1); }
+}
 static void schema_oracle(const char *when)
 {
+    { char gn[128] = "?", gc[128] = "?";
+      if (VSgetname(vs, gn) == FAIL || strcmp(gn, VNAME)) hk_fail("vs-name", "%s VSgetname '%s' want '%s'", when, gn, VNAME);
+      if (VSgetclass(vs, gc) == FAIL || strcmp(gc, VCLASS)) hk_fail("vs-name", "%s VSgetclass '%s' want '%s'", when, gc, VCLASS); }
     int32 nelt = -1, il = -1, esz = -1; char flds[1024] = "", nm[128] = "";
     if (VSinquire(vs, &nelt, &il, flds, &esz, nm) == FAIL) { hk_fail("vs-schema", "%s VSinquire failed", when); return; }
     char want[1024] = ""; for (int i = 0; i < NF; i++) { if (i) strcat(want, ","); strcat(want, F[i].name); }
@@ -335,7 +348,7 @@ static void run_case(int k)
     vs = VSattach(fid, -1, "w");
     if (vs == FAIL) { hk_fail("vs-rc", "VSattach new"); Vend(fid); Hclose(fid); return; }
     attached = 1; writable = 1;
-    VSsetname(vs, "tbl");
+    VSsetname(vs, "tbl"); strcpy(VNAME, "tbl"); VCLASS[0] = 0;
     vsref = (uint16)VSQueryref(vs);
 
     /* schema */
@@ -466,6 +479,7 @@ static void run_case(int k)
         }
         else if (act < 92) { /* ---------- detach / re-attach in the same session */
             if (NV == 0) continue;
+            if (writable && hk_chance(50)) do_rename();
             do_detach(); do_attach(hk_chance(60));
             if (attached) schema_oracle("after-reattach");
         }
@@ -488,7 +502,9 @@ static void run_case(int k)
     }
     /* final full read-back in both interlaces with all fields, after a reopen */
     if (NV > 0 && !dead) {
+        if (attached && writable && hk_chance(40)) do_rename();
         do_reopen();
+        if (attached && !dead) schema_oracle("after-final-reopen");
         if (attached && !dead) {
             for (int i = 0; i < NF; i++) RSEL[i] = i; RNS = NF;
             char nm[512], nm2[512]; names_of(RSEL, RNS, nm); names_nospace(nm, nm2);
